@@ -127,6 +127,25 @@ def tristate_ok(cls: Any, d1: Any, d2: Any, names: Any, UNSET: Any) -> bool:
     return True
 
 
+def required_ok(cls: Any, d: Any, entry: Any) -> bool:
+    """A key the document requires cannot be left out: the decoder rejects a document without it and the constructor
+    has no default for it (unless the schema declares one)."""
+    import attr
+
+    wire, py, has_default = entry
+    d = dict(d)
+    d.pop(wire, None)
+    if py and not has_default:
+        f = getattr(attr.fields(cls), py, None)
+        if f is None or f.default is not attr.NOTHING:
+            return False
+    try:
+        cls.from_dict(d)
+    except (KeyError, ValueError, TypeError, AttributeError):
+        return True
+    return False
+
+
 # ------------------------------------------------------------------------------------------------ endpoint oracles
 import datetime as _dt
 import enum as _enum
